@@ -53,6 +53,9 @@ structure Ctx (σ : Type) where
 /-- `*_reset` -/
 def reset (A : Alg σ) : Ctx σ := { st := A.init, buf := [], nbytes := 0 }
 
+/-- `*_reset(ctx)` on a context with any history: every field the later code reads is overwritten -/
+def resetCtx (A : Alg σ) (_old : Ctx σ) : Ctx σ := reset A
+
 /-- `*_update`: `while (len > 0) { n = B - bufpos; if (n > len) n = len; memcpy(buf + bufpos, src, n);
     src += n; len -= n; nbytes += n; if (bufpos == 0) core(); }` — one loop iteration per unit of fuel -/
 def updateF (A : Alg σ) : Nat → Ctx σ → List UInt8 → Ctx σ
